@@ -797,7 +797,7 @@ func gen(t *common.Trace, e common.Engine, r *common.Rng, thorough bool) {
 			res := common.Do(t, e, fmt.Sprintf("race %d %d", w, rounds))
 			t.Count("race:" + strings.SplitN(res, ":", 2)[0])
 		}
-		res := common.Do(t, e, fmt.Sprintf("race2 %d", rounds*3/2))
+		res := common.Do(t, e, fmt.Sprintf("race2 %d", rounds*8))
 		t.Count("race2:" + strings.SplitN(res, ":", 2)[0])
 	}
 }
